@@ -21,7 +21,7 @@ from .corpus import CORPUS
 
 PROP = "C20"
 FEATURE_SETS = ("none", "full")
-GRAMMARS = ["g1", "g2", "p1", "p3", "c1", "c3", "o1", "o2", "o3", "a1", "a3", "k1", "k2", "k4", "v1", "h1", "kc", "hr", "hd"]
+GRAMMARS = ["g1", "g2", "p1", "p3", "c1", "c3", "o1", "o2", "o3", "a1", "a3", "k1", "k2", "k4", "v1", "h1", "kc", "hr", "hd", "f3", "f1", "x1", "x2", "x4", "k5", "k6"]
 
 
 def norm_msg(ex, v):
@@ -153,6 +153,7 @@ def run_job(job, build):
     # one intern table and one axiom list for both executors
     eb.strtab, eb.strrev, eb.axioms = ea.strtab, ea.strrev, ea.axioms
     g = CORPUS[job["grammar"]]
+    ea.conv = eb.conv = getattr(g, "conv", "u32")
     shape = tuple(job["shape"])
     out = {"stats": None, "cex": [], "inconclusive": [], "samples": [], "nontrivial": 0, "classes": {}, "joint": 0}
 
